@@ -9,6 +9,7 @@
   R-SIBLING-SCAN  the hand-specialised Io and Slice scanners use identical byte classes.
 Not decided: equality of results as values.
 """
+import re
 from .. import classes, common, facts as F, lex, sim
 from ..report import load_table
 from ..sim import Adt, Opq, UNK
@@ -50,12 +51,15 @@ def run(ctx):
     tys = [f["ty"] for f in a["variants"][0]["fields"]] if a else []
     if not a:
         r.anchor_missing("parse::read::IoRead")
-    elif any("LineColIterator<std::io::Bytes<R>>" in ty for ty in tys) and not any(
-            ty == "R" or ty.startswith("std::io::BufReader") for ty in tys):
-        r.ok("IoRead reaches its source only through a LineColIterator<io::Bytes<R>> field")
     else:
-        r.violation("parse::read::IoRead", "iter-type", "IoRead's fields are %s: the source is not wrapped as "
-                    "LineColIterator<io::Bytes<R>> only" % tys)
+        # the only field that mentions the user's reader is io::Bytes<R>, bare or inside the counting wrapper
+        of_r = [ty for ty in tys if re.search(r"\bR\b", ty)]
+        if of_r and all(ty in ("std::io::Bytes<R>", "parse::iter::LineColIterator<std::io::Bytes<R>>") for ty in of_r) \
+                and len(of_r) == 1:
+            r.ok("IoRead reaches its source only through its %s field" % of_r[0])
+        else:
+            r.violation("parse::read::IoRead", "iter-type", "IoRead's fields are %s: the source is not held as "
+                        "io::Bytes<R> (inside LineColIterator) only" % tys)
 
     ioread_map(ctx, lexpr)
     # "a read failure is ... never treated as end of input", "an error of the same category": the category and kind
@@ -96,9 +100,14 @@ def ioread_map(ctx, lexpr):
         "Some(Ok(b))": Adt(OPT, 1, [Adt(RES, 0, [77])]),
         "Some(Err(e))": Adt(OPT, 1, [Adt(RES, 1, [e])]),
     }
+    step = common.stream_stepper(lexpr)
+    if step is None:
+        r.anchor_missing("the one function that pulls from io::Bytes and counts lines and columns (LineColIterator::next)")
     for fp in ("<parse::read::IoRead<R> as parse::read::Read<'de>>::next",
                "<parse::read::IoRead<R> as parse::read::Read<'de>>::peek",
-               "<parse::iter::LineColIterator<I> as std::iter::Iterator>::next"):
+               step.path if step is not None else None):
+        if fp is None:
+            continue
         f = lexpr.fn(fp)
         if f is None:
             r.anchor_missing(fp)
@@ -126,7 +135,7 @@ def ioread_map(ctx, lexpr):
             outs = set()
             for p in ps:
                 outs.add(_shape(p, e))
-            lcit = "LineColIterator" in fp
+            lcit = step is not None and fp == step.path
             want = {
                 "None": "None" if lcit else "Ok(None)",
                 "Some(Ok(b))": "Some(Ok(77))" if lcit else "Ok(Some(77))",
